@@ -26,6 +26,8 @@ RULE = ("cases: one seeded history each = original contents O (0..120 bytes), up
         "histories of readChunk/writeChunk/setAttrs/close on GeneralSFTPFile over a scripted download. Part C: "
         "'scattered writes' histories, 8..22 short disjoint client writes issued in random order while the download "
         "frontier is still near 0 (10 or more entries pending on the overwrite heap), then download pieces of 1..40 bytes. "
+        "Part D (every run): forced histories in which the download fails before close is called / after close was "
+        "requested, after writes and size changes behind, across and ahead of the download frontier: nothing may be uploaded. "
         "distinct = distinct (O, history); non-trivial = at least one client write or size change happened "
         "while the download was still incomplete")
 META = {
@@ -715,6 +717,8 @@ class HandleRun(object):
         self.ref = Reference(O, len(O))
         self.consumer = None
         self.download_d = None
+        self.dl_failed = False
+        self.fail_determined = False
         self.uploaded = None
         self.pos = 0
         self.hops = []                 # client-level history
@@ -872,6 +876,8 @@ class HandleRun(object):
             self.problems.append(("sftp-read-overtaken-by-later-request",
                                   "readChunk #%d was still waiting for the download when a later write/setAttrs/close on the same handle "
                                   "was executed; its answer reflects the later request" % hid, exp, r))
+        elif r[0] == "fail" and self.dl_failed:
+            pass        # reads may fail once the download has failed; nothing is promised about them
         elif r[0] == "fail":
             self.problems.append(("sftp-read-fails", "readChunk #%d failed (%s) on an open handle whose download succeeded" % (hid, r[1]), exp, r))
         else:
@@ -890,6 +896,14 @@ class HandleRun(object):
         elif k == "dlfinish":
             self.finished = True
             self.download_d.callback(None)
+        elif k == "dlfail":
+            # the background download breaks off: version.read()'s Deferred errbacks
+            from twisted.python.failure import Failure
+            self.finished = True
+            self.dl_failed = True
+            # does the reference still depend on original bytes that were never delivered?
+            self.fail_determined = all(i < self.pos or i in self.ref.owned for i in range(len(self.ref.b)))
+            self.download_d.errback(Failure(IOError("download broke off")))
         elif k == "hturn":
             self.run_events()
         elif k == "hread":
@@ -939,6 +953,19 @@ class HandleRun(object):
         left = [i for i in range(self.nh) if i not in self.h_result]
         if left:
             self.problems.append(("sftp-read-never-completes", "readChunk requests %r got no answer although the download finished" % (left,), None, None))
+        if self.dl_failed:
+            # The old contents never arrived completely, so "original contents with the client's
+            # writes applied" does not exist: nothing may be written over the original.
+            # (If every byte of the reference had already been delivered or written by the client when the
+            # download broke off, uploading exactly the reference is as acceptable as refusing.)
+            if self.uploaded is not None and not (self.fail_determined and self.uploaded == self.ref_at_close):
+                self.problems.append(("sftp-upload-after-failed-download",
+                                      "the background download failed while the file still depended on bytes that had not arrived, "
+                                      "yet close() uploaded %d bytes over the original %d-byte file" % (len(self.uploaded), len(self.O)),
+                                      None, self.uploaded.hex()))
+            if self.close_issued and self.close_result is None:
+                self.problems.append(("sftp-close-never-completes", "close() did not complete although the download ended (failed)", None, None))
+            return
         if self.close_issued:
             if self.close_result is None:
                 self.problems.append(("sftp-close-never-completes", "close() did not complete although the download finished", None, None))
@@ -1089,6 +1116,98 @@ def part_b(ctx):
     ctx.trace(len(terms) - len(bad))
 
 
+# --------------------------------------------------------------------------
+# Part D: the background download fails (forced endings, run every time)
+# --------------------------------------------------------------------------
+def failed_download_histories(r):
+    """Deterministic grid: (what the client changed, relative to the download frontier) x (how much had
+    arrived) x (failure before close is called / after close was requested) x (mutable / immutable)."""
+    N = 100
+    out = []
+    for arrived in (0, 40, 99):
+        changes = {
+            "write-behind-frontier": [("hwrite", max(0, arrived - 30), b"A" * 10)],
+            "write-straddling-frontier": [("hwrite", max(0, arrived - 5), b"B" * 20)],
+            "write-ahead-of-frontier": [("hwrite", min(N - 10, arrived + 20), b"C" * 10)],
+            "write-past-eof": [("hwrite", N + 5, b"D" * 4)],
+            "truncate-below-frontier": [("hsize", max(0, arrived - 10))],
+            "truncate-above-frontier": [("hsize", min(N - 1, arrived + 10))],
+            "extend": [("hsize", N + 20)],
+            "several": [("hwrite", 10, b"E" * 20), ("hsize", 70), ("hwrite", 60, b"F" * 30), ("hwrite", 0, b"G")],
+            "none": [],
+        }
+        for name, ch in sorted(changes.items()):
+            for order in ("fail-then-close", "close-then-fail", "close-turn-fail"):
+                for mutable in (False, True):
+                    ops = []
+                    if arrived:
+                        ops.append(("chunk", arrived))
+                    ops += ch
+                    if r.random() < 0.5:
+                        ops.append(("hturn",))
+                    if order == "fail-then-close":
+                        ops += [("dlfail",)] + ([("hturn",)] if r.random() < 0.7 else []) + [("hclose",)]
+                    elif order == "close-then-fail":
+                        ops += [("hclose",), ("dlfail",)]
+                    else:
+                        ops += [("hclose",), ("hturn",), ("dlfail",)]
+                    ops += [("hturn",), ("hturn",)]
+                    out.append(("%s/%s/arrived=%d" % (name, order, arrived), mutable, ops))
+    return out
+
+
+def part_d(ctx):
+    grid = failed_download_histories(ctx.rng("D", "grid"))
+    O = bytes(((i * 7) % 251) + 1 for i in range(100))
+    for label, mutable, ops in grid:
+        drain()
+        run = HandleRun(O, append=False, mutable=mutable)
+        for o in ops:
+            run.apply(o)
+        run.finish_checks()
+        drain()
+        ctx.case((label, mutable), kind="handle-download-fails-" + label.split("/")[1])
+        for kind, what, exp, obs in run.problems:
+            ctx.oracle_fail(kind, what, case=run.case_record(), expected=exp, observed=obs)
+    # random ones: a generic history, then the failure at a random point before or after close
+    n = ctx.n(40, 400)
+    for i in range(n):
+        r = ctx.rng("D", i)
+        d0 = r.choice([13, 33, 50, 80, MAXLEN])
+        drain()
+        run = HandleRun(rbytes(r, d0), append=(r.random() < 0.2), mutable=(r.random() < 0.5))
+        steps = r.randrange(1, 12)
+        for _ in range(steps):
+            c = run.consumer
+            k = r.choice(["chunk", "chunk", "hwrite", "hwrite", "hsize", "hread", "hturn"])
+            if k == "chunk":
+                if run.pos < d0 - 1:
+                    run.apply(("chunk", r.randrange(1, d0 - run.pos)))     # never the whole file
+            elif k == "hwrite":
+                run.apply(("hwrite", r.choice([0, c.downloaded, c.current_size, r.randrange(0, c.current_size + 6)]), rbytes(r, r.choice([1, 3, 8, 21]))))
+            elif k == "hsize":
+                run.apply(("hsize", r.choice([0, c.downloaded, r.randrange(0, c.current_size + 10)])))
+            elif k == "hread":
+                run.apply(("hread", r.randrange(0, c.current_size + 2), r.choice([1, 10, 200])))
+            else:
+                run.apply(("hturn",))
+        if r.random() < 0.5:
+            run.apply(("dlfail",))
+            if r.random() < 0.6:
+                run.apply(("hturn",))
+            run.apply(("hclose",))
+        else:
+            run.apply(("hclose",))
+            if r.random() < 0.5:
+                run.apply(("hturn",))
+            run.apply(("dlfail",))
+        run.finish_checks()
+        drain()
+        ctx.case((run.O, tuple(run.hops)), kind="handle-download-fails-random")
+        for kind, what, exp, obs in run.problems:
+            ctx.oracle_fail(kind, what, case=run.case_record(), expected=exp, observed=obs)
+
+
 def run(ctx):
     tmpdir = env.subdir("c39-tmp")
     old = tempfile.tempdir
@@ -1097,6 +1216,7 @@ def run(ctx):
         part_a(ctx, tmpdir)
         part_c(ctx, tmpdir)
         part_b(ctx)
+        part_d(ctx)
     finally:
         tempfile.tempdir = old
         drain()
